@@ -106,10 +106,14 @@ def group_order(n, which):
     return {"p": math.factorial(n), "n": 1 << (n + 1), "npn": math.factorial(n) * (1 << (n + 1))}[which]
 
 
-def ranges(tier):
+def ranges(tier, prop="C04"):
+    if prop == "C05":
+        if tier == "quick":
+            return {"p": range(0, 6), "n": range(0, 7), "npn": range(0, 4)}
+        return {"p": range(0, 7), "n": range(0, 8), "npn": range(0, 5)}
     if tier == "quick":
-        return {"p": range(0, 6), "n": range(0, 7), "npn": range(0, 4)}
-    return {"p": range(0, 7), "n": range(0, 7), "npn": range(0, 5)}
+        return {"p": range(0, 6), "n": range(0, 8), "npn": range(0, 4)}
+    return {"p": range(0, 8), "n": range(0, 9), "npn": range(0, 5)}
 
 
 def analyse(chk, prop):
@@ -119,7 +123,7 @@ def analyse(chk, prop):
     chk.trust("rustc MIR construction and constant evaluation (FLIPS/SWAPS tables are read from the compiler); std summaries")
     chk.trust("the library order on tables is decided by C08; minimality = every orbit element visited + strictly smaller kept")
     chk.assume("n >= 7 uses sequences generated at run time; they are outside the quick tier")
-    rg = ranges(chk.tier)
+    rg = ranges(chk.tier, prop)
     for kind in ("dyn", "static"):
         K = env.kinds[kind]
         for which in ("p", "n", "npn"):
@@ -151,9 +155,13 @@ def analyse(chk, prop):
                     # C04.W: every comparison is (visited table, best so far) in the library order (MSW first)
                     okw, dw = PROVED, ""
                     rev_ident = tuple(flat(list(reversed(sym_words(n, "a")))))
+                    fwd_ident = tuple(flat(sym_words(n, "a")))
                     for k, (l, r) in enumerate(log):
                         if tuple(flat(r)) != rev_ident:
-                            okw, dw = REFUTED, "comparison %d does not compare against the best table so far" % k
+                            if table_words(n) > 1 and tuple(flat(r)) == fwd_ident:
+                                okw, dw = REFUTED, "the walk compares tables least-significant word first, not in the library's order (most significant word first)"
+                            else:
+                                okw, dw = REFUTED, "comparison %d does not compare against the best table so far" % k
                             break
                     chk.add("C04.W", base + " compares each visited table with the best", okw, dw, where=where_of(b))
                     # C04.G: visited + input == orbit
@@ -293,7 +301,7 @@ def capture_sequences(env, kind, which, n):
 
 def check_cycle(seq, n):
     """closed covering cycle of flips (length 2^n) or adjacent swaps (length n!)"""
-    if len(seq) == 1 << n and n >= 1:
+    if len(seq) in ((1 << n), (1 << n) - 1) and n >= 1 and len(seq) not in (math.factorial(n), math.factorial(n) - 1):
         cur, seen = 0, set()
         for f in seq:
             if f >= n:
@@ -303,7 +311,7 @@ def check_cycle(seq, n):
                 return REFUTED, "polarity mask %s visited twice" % bin(cur)
             seen.add(cur)
         if cur != 0 or len(seen) != 1 << n:
-            return REFUTED, "flip sequence is not a closed cycle through all %d masks" % (1 << n)
+            return REFUTED, "flip sequence of length %d is not a closed cycle through all %d polarity masks (it ends at mask %s)" % (len(seq), 1 << n, bin(cur))
         return PROVED, "gray"
     cur, seen = list(range(n)), set()
     for s_ in seq:
@@ -319,8 +327,8 @@ def check_cycle(seq, n):
     return PROVED, "sjt"
 
 
-def generated(chk):
-    """C04.Q: the sequences generated at run time for n >= 7 (folded: pure functions of n) are closed
+def generated(chk, rule="C04.Q"):
+    """C04.Q / C05.Q: the sequences generated at run time for n >= 7 (folded: pure functions of n) are closed
     covering cycles and the same sequences reach walk and decoder"""
     facts = F.load("dbg")
     env = Env(facts)
@@ -351,7 +359,7 @@ def generated(chk):
                             d = "lengths %s" % [len(s_) for s_ in walk]
                 except Undecided as e:
                     v, d = UNDECIDED, e.cause
-                chk.add("C04.Q", key, v, d, where=where_of(K.method("%s_canonization" % which)))
+                chk.add(rule, key, v, d, where=where_of(K.method("%s_canonization" % which)))
 
 
 def run(chk):
